@@ -42,7 +42,11 @@ class SClass:
         self.class_attrs = {}  # name -> ast expr (evaluated lazily by interp)
         self._bases = None
         self._mro = None
+        self.nested = {}
         for it in node.body:
+            if isinstance(it, ast.ClassDef):
+                self.nested[it.name] = SClass(it.name, it, module)
+                continue
             if isinstance(it, ast.FunctionDef):
                 decs = [ast.unparse(d) for d in it.decorator_list]
                 if "property" in decs:
